@@ -118,7 +118,7 @@ func c02Block(r *Rng, depth int) []*c02N {
 				}
 				break
 			}
-			out = append(out, &c02N{tag: Pick(r, []string{"pre", "textarea"}), kids: []*c02N{{text: "line1\n  indented " + c02Text(r) + "\nline3"}}})
+			out = append(out, &c02N{tag: Pick(r, []string{"pre", "textarea"}), kids: []*c02N{{text: Pick(r, []string{"", "", "\n", "\n\n", "&#10;", "\n\n\n", "\n &#10;", "&#13;", "\n&#13;&#10;"}) + "line1\n  indented " + c02Text(r) + "\nline3" + Pick(r, []string{"", "", "\n", "\n\n", "&#13;"})}}})
 		default:
 			out = append(out, &c02N{tag: Pick(r, []string{"script", "style"}), kids: []*c02N{{text: "a < b && c > d; x = \"" + Pick(r, []string{"q", "lorem"}) + "\";"}}})
 		}
@@ -216,6 +216,9 @@ func c02CoqForestX(nodes []*html.Node, canon bool) (string, bool) {
 			switch n.Type {
 			case html.TextNode:
 				t := n.Data
+				if strings.Contains(t, "\r") {
+					ok = false // carriage returns are outside the model (html.EscapeString writes &#13;, the tokenizer turns a raw one into a line feed): the real-parser oracle decides these
+				}
 				if canon {
 					t = strings.Trim(n.Data, " \t\n\f\r")
 				}
@@ -228,6 +231,9 @@ func c02CoqForestX(nodes []*html.Node, canon bool) (string, bool) {
 				}
 				var as []string
 				for _, a := range n.Attr {
+					if strings.Contains(a.Val, "\r") {
+						ok = false
+					}
 					as = append(as, "("+coqBytes(a.Key)+", "+coqBytes(a.Val)+")")
 				}
 				var kids []*html.Node
